@@ -10,6 +10,10 @@
 //!        present iff its guard was dropped before the entry was closed; `open` succeeds once; …), and
 //!   (ii) the Lean model (`KeepAlive.step` run by the driver on the same operation list).
 //!
+//! The owner is ended in every public way: `dref` (plain drop / a handle), `fin:<k>:<v>` (the finishers of
+//! `metrique::instrument::Instrumented`, see `finish_owner`) — all with the semantics of a drop —, and is built by
+//! either public constructor (`ctor:<k>`, see `build_owner`).
+//!
 //! Stage 2, T-trace (real threads).  Case line: `trace <seed> | <setup op> … ; <role> <role> …`: after a
 //! single-threaded setup every remaining droppable object is dropped on a thread of its own, released
 //! together by a barrier, with yields/sleeps injected at the perturbation points 10–13 of `/repo`.  Every
@@ -137,6 +141,11 @@ enum Op {
     Hnd,
     Cl,
     Dref,
+    /// finish the (direct) owner through one of the public finishers, see `finish_owner`; the `u64` is the
+    /// value the mutating finishers write to `plain` on the way
+    Fin(u8, u64),
+    /// construct the owner with the k-th constructor (only valid as the very first operation)
+    Ctor(u8),
     Dfg,
     Ddg,
     Open(usize, bool, u64), // slot, wait?, initial value (lazy slots)
@@ -159,6 +168,8 @@ impl Op {
             Op::Hnd => "hnd".into(),
             Op::Cl => "cl".into(),
             Op::Dref => "dref".into(),
+            Op::Fin(k, v) => format!("fin:{k}:{v}"),
+            Op::Ctor(k) => format!("ctor:{k}"),
             Op::Dfg => "dfg".into(),
             Op::Ddg => "ddg".into(),
             Op::Open(i, w, v) => format!("open:{i}:{}:{v}", if w { "w" } else { "d" }),
@@ -182,6 +193,8 @@ impl Op {
             ("hnd", 1) => Op::Hnd,
             ("cl", 1) => Op::Cl,
             ("dref", 1) => Op::Dref,
+            ("fin", 3) => Op::Fin(n(1)? as u8, n(2)?),
+            ("ctor", 2) => Op::Ctor(n(1)? as u8),
             ("dfg", 1) => Op::Dfg,
             ("ddg", 1) => Op::Ddg,
             ("open", 4) => Op::Open(n(1)? as usize, f[2] == "w", n(3)?),
@@ -211,6 +224,8 @@ struct Shadow {
     fg_made: usize,
     dg_made: usize,
     cl_made: usize,
+    /// some operation has been executed (constructors are only meaningful before)
+    started: bool,
 }
 
 impl Shadow {
@@ -222,6 +237,8 @@ impl Shadow {
         match *op {
             Op::Fg | Op::Dg | Op::Mut(_) | Op::Hnd => own,
             Op::Hit(_) | Op::Dref => own || self.handles > 0,
+            Op::Fin(k, _) => own && (k as usize) < N_FINISHERS,
+            Op::Ctor(k) => !self.started && (k as usize) < N_CTORS,
             Op::Cl => self.handles > 0,
             Op::Dfg => self.fgs > 0,
             Op::Ddg => self.dgs > 0,
@@ -234,7 +251,10 @@ impl Shadow {
     }
     /// `open_ok`: whether an `open` returned a guard, `ready`: whether a poll returned `Ready`
     fn apply(&mut self, op: &Op, open_ok: bool, ready: bool) {
+        self.started = true;
         match *op {
+            Op::Fin(..) => self.owner = false,
+            Op::Ctor(_) => {}
             Op::Fg => {
                 self.fgs += 1;
                 self.fg_made += 1
@@ -321,6 +341,14 @@ impl Oracle {
             Op::Hit(v) => self.hits = v,
             Op::Cl => self.refs += 1,
             Op::Dref => self.refs -= 1,
+            // every finisher is, for the property, "the owner is dropped" (the mutating ones write `plain` first)
+            Op::Fin(k, v) => {
+                if finisher_mutates(k) {
+                    self.plain = v
+                }
+                self.refs -= 1
+            }
+            Op::Ctor(_) => {}
             Op::Dfg => self.fg_total -= 1,
             Op::Ddg => self.forced = true,
             Op::Open(i, w, v0) => {
@@ -384,20 +412,100 @@ struct World {
     fut: Option<(usize, WaitFut)>,
 }
 
-fn new_world(init: [u64; 2]) -> World {
-    new_world_with(init, RecSink::default())
+fn new_world(init: [u64; 2], ctor: u8) -> World {
+    new_world_with(init, RecSink::default(), ctor)
 }
 
-fn new_world_with(init: [u64; 2], sink: RecSink) -> World {
-    let owner = Uow {
+/// the constructor a history asks for: its first operation, if that is a `ctor:k`
+fn ctor_of(ops: &[Op]) -> u8 {
+    match ops.first() {
+        Some(Op::Ctor(k)) if (*k as usize) < N_CTORS => *k,
+        _ => 0,
+    }
+}
+
+const N_CTORS: usize = 2;
+
+/// Every public way of wrapping an entry for append-on-drop: the `#[metrics]`-generated
+/// `Uow::append_on_drop(sink)` and the free function `metrique::append_and_close(entry, sink)`.
+/// (There is no `append_on_drop_default` in this version; `RootEntry::new(entry.close())` appended by hand
+/// has no owner and is outside C06.)
+fn build_owner(init: [u64; 2], sink: RecSink, ctor: u8) -> Owner {
+    let uow = Uow {
         plain: 0,
         hits: Counter::new(0),
         a: Slot::new(Child { val: init[0] }),
         b: Slot::new(Child { val: init[1] }),
         c: LazySlot::default(),
         d: LazySlot::default(),
+    };
+    match ctor {
+        0 => uow.append_on_drop(sink),
+        _ => metrique::append_and_close(uow, sink),
     }
-    .append_on_drop(sink.clone());
+}
+
+const N_FINISHERS: usize = 8;
+
+fn finisher_mutates(k: u8) -> bool {
+    k >= 5
+}
+
+/// Every public way of finishing a directly owned `AppendAndCloseOnDrop` (besides turning it into handles).
+/// For C06 each of them is "the owner is dropped": the entry must be appended exactly when a plain `drop`
+/// would append it.  `AppendAndCloseOnDrop` itself has no consuming method other than `handle()`; everything
+/// else goes through `metrique::instrument::Instrumented` (all its public methods appear below).
+/// `discard_metrics` "discards" its `U`, which for `U = AppendAndCloseOnDrop` means dropping the guard, i.e.
+/// the entry IS appended (there is no public way to detach an entry from its guard without appending it).
+fn finish_owner(o: Owner, k: u8, v: u64) {
+    use metrique::instrument::Instrumented;
+    match k {
+        0 => drop(o),
+        1 => Instrumented::from_parts((), o).emit(),
+        2 => Instrumented::from_parts((), o).discard_metrics(),
+        3 => {
+            let (_, m) = Instrumented::from_parts((), o).into_parts();
+            drop(m)
+        }
+        4 => {
+            let mut target: Option<Owner> = None;
+            Instrumented::from_parts((), o).split_metrics_to(&mut target);
+            drop(target)
+        }
+        5 => {
+            let r: Result<u8, u8> = Instrumented::instrument(o, |m| {
+                m.plain = v.wrapping_add(1);
+                Ok(1)
+            })
+            .on_error(|_, m| m.plain = 999_999)
+            .on_success(|_, m| m.plain = v)
+            .emit();
+            assert_eq!(r, Ok(1));
+        }
+        6 => {
+            let r: Result<u8, u8> = Instrumented::instrument(o, |_m| Err(2))
+                .on_success(|_, m| m.plain = 999_999)
+                .on_error(|_, m| m.plain = v.wrapping_add(1))
+                .finalize_metrics(|_, m| m.plain = v)
+                .emit();
+            assert_eq!(r, Err(2));
+        }
+        _ => {
+            let mut fut = Box::pin(Instrumented::instrument_async(o, async |m: &mut Owner| {
+                m.plain = v;
+                7u8
+            }));
+            let mut cx = Context::from_waker(Waker::noop());
+            match fut.as_mut().poll(&mut cx) {
+                Poll::Ready(i) => assert_eq!(i.emit(), 7),
+                Poll::Pending => panic!("instrument_async over a ready closure is pending"),
+            }
+        }
+    }
+}
+
+fn new_world_with(init: [u64; 2], sink: RecSink, ctor: u8) -> World {
+    let owner = build_owner(init, sink.clone(), ctor);
     World { sink, owner: Some(owner), handles: vec![], fgs: vec![], dgs: vec![], guards: [None, None, None, None], fut: None }
 }
 
@@ -433,6 +541,9 @@ impl World {
                     drop(self.handles.pop())
                 }
             }
+            Op::Fin(k, v) => finish_owner(self.owner.take().unwrap(), k, v),
+            // the constructor was chosen when the world was built (`ctor_of`)
+            Op::Ctor(_) => {}
             Op::Dfg => drop(self.fgs.pop()),
             Op::Ddg => drop(self.dgs.pop()),
             Op::Open(i, w, v0) => {
@@ -551,7 +662,7 @@ impl Outcome {
 }
 
 fn run_case(c: &Case, slots_checked: bool) -> Outcome {
-    let mut w = new_world(c.init);
+    let mut w = new_world(c.init, ctor_of(&c.ops));
     let mut sh = Shadow::new();
     let mut or = Oracle::new(c.init);
     let mut out = Outcome { ops: vec![], toks: vec![], recs: vec![], fail: None, appended_at: None };
@@ -675,7 +786,7 @@ struct Family {
 
 fn family_c06() -> Family {
     Family {
-        alphabet: vec![Op::Fg, Op::Dg, Op::Hnd, Op::Cl, Op::Dref, Op::Dfg, Op::Ddg, Op::Mut(7), Op::Hit(5)],
+        alphabet: vec![Op::Fg, Op::Dg, Op::Hnd, Op::Cl, Op::Dref, Op::Fin(1, 0), Op::Dfg, Op::Ddg, Op::Mut(7), Op::Hit(5)],
         max_fg: 3,
         max_dg: 2,
         max_cl: 2,
@@ -685,7 +796,7 @@ fn family_c06() -> Family {
 fn family_c13() -> Family {
     Family {
         alphabet: vec![
-            Op::Fg, Op::Dg, Op::Dref, Op::Dfg, Op::Ddg,
+            Op::Fg, Op::Dg, Op::Dref, Op::Fin(1, 0), Op::Dfg, Op::Ddg,
             Op::Open(0, true, 0), Op::Open(0, false, 0), Op::Open(2, true, 4), Op::Open(2, false, 4),
             Op::Gm(0, 9), Op::Gd(0), Op::Gd(2), Op::Wb(0), Op::Wp, Op::Wc, Op::Delay(0), Op::Gc(0),
         ],
@@ -749,12 +860,17 @@ fn random_case_opts(rng: &mut Rng, slots: bool, tail: bool, max_len: u64) -> Cas
     let len = rng.range(3, max_len) as usize;
     let mut g = GenState::new();
     let mut ops = vec![];
+    if rng.chance(1, 2) {
+        let c = Op::Ctor(rng.below(N_CTORS as u64) as u8);
+        g.apply(&c);
+        ops.push(c);
+    }
     let nslots_used = if slots { rng.range(1, 4) as usize } else { 0 };
     for _ in 0..len {
         // candidate ops with weights
         let mut cands: Vec<(u64, Op)> = vec![
             (3, Op::Fg), (2, Op::Dg), (2, Op::Mut(rng.below(100))), (2, Op::Hit(rng.below(100))), (1, Op::Hnd),
-            (2, Op::Cl), (3, Op::Dref), (3, Op::Dfg), (2, Op::Ddg),
+            (2, Op::Cl), (2, Op::Dref), (2, Op::Fin(rng.below(N_FINISHERS as u64) as u8, rng.below(100))), (3, Op::Dfg), (2, Op::Ddg),
         ];
         for i in 0..nslots_used {
             let i = if nslots_used <= 2 && rng.chance(1, 2) { i + 2 } else { i }; // mix eager / lazy
@@ -796,7 +912,10 @@ fn random_case_opts(rng: &mut Rng, slots: bool, tail: bool, max_len: u64) -> Cas
             ops.push(Op::Wc);
             g.apply(&Op::Wc);
         }
-        for _ in 0..(g.sh.owner as usize + g.sh.handles) {
+        if g.sh.owner {
+            tail.push(Op::Fin(rng.below(N_FINISHERS as u64) as u8, rng.below(100)));
+        }
+        for _ in 0..g.sh.handles {
             tail.push(Op::Dref);
         }
         for _ in 0..g.sh.fgs {
@@ -852,7 +971,11 @@ fn process(cases: &[Case], args: &Args, slots_checked: bool) -> ShardOut {
         let enc = executed.encode();
         let mut bumps = vec![];
         for op in &o.ops {
-            bumps.push(format!("op:{}", op.enc().split(':').next().unwrap()));
+            bumps.push(match op {
+                Op::Fin(k, _) => format!("op:fin:{k}"),
+                Op::Ctor(k) => format!("op:ctor:{k}"),
+                _ => format!("op:{}", op.enc().split(':').next().unwrap()),
+            });
         }
         bumps.push(format!("len:{:02}-{:02}", o.ops.len() / 5 * 5, o.ops.len() / 5 * 5 + 4));
         bumps.push(format!("appended:{}", o.recs.len()));
@@ -869,7 +992,7 @@ fn process(cases: &[Case], args: &Args, slots_checked: bool) -> ShardOut {
                 if matches!(op, Op::Hnd) {
                     sh.2 = true;
                 }
-                if matches!(op, Op::Dref) && (g.sh.owner as usize + g.sh.handles) == 1 {
+                if matches!(op, Op::Dref | Op::Fin(..)) && (g.sh.owner as usize + g.sh.handles) == 1 {
                     sh.0 = g.sh.fgs + g.sh.guards.iter().filter(|x| **x).count();
                     sh.1 = g.sh.dgs;
                     sh.3 = sh.0 > 0 || sh.1 > 0 || sh.2;
@@ -940,6 +1063,7 @@ fn install_perturbation() {
 }
 
 enum Racer {
+    Own(Owner, u8, u64),
     Ref(Box<dyn Send>),
     Fg(FlushGuard),
     Dg(Pin<Box<ForceFlushGuard>>),
@@ -958,7 +1082,7 @@ fn run_trace(c: &Case, pseed: u64) -> TraceOut {
     PERTURB.store(pseed, Ordering::Relaxed);
     let hist = Arc::new(Mutex::new(Vec::<String>::new()));
     let sink = RecSink { hist: Some(hist.clone()), ..Default::default() };
-    let mut w = new_world_with(c.init, sink);
+    let mut w = new_world_with(c.init, sink, ctor_of(&c.ops));
     let mut sh = Shadow::new();
     let mut setup = vec![];
     let log = |s: String| hist.lock().unwrap().push(s);
@@ -969,6 +1093,12 @@ fn run_trace(c: &Case, pseed: u64) -> TraceOut {
         // observations before the operation
         match *op {
             Op::Dref => log("bR".into()),
+            Op::Fin(k, v) => {
+                if finisher_mutates(k) {
+                    log(format!("mut:{v}"))
+                }
+                log("bR".into())
+            }
             Op::Dfg => log("bF".into()),
             Op::Ddg => log("bD".into()),
             Op::Gd(i) => log(format!("bG:{i}")),
@@ -988,7 +1118,7 @@ fn run_trace(c: &Case, pseed: u64) -> TraceOut {
             Op::Fg => log("nF".into()),
             Op::Dg => log("nD".into()),
             Op::Cl => log("nR".into()),
-            Op::Dref => log("eR".into()),
+            Op::Dref | Op::Fin(..) => log("eR".into()),
             Op::Dfg => log("eF".into()),
             Op::Ddg => log("eD".into()),
             Op::Gd(i) => log(format!("eG:{i}")),
@@ -1008,8 +1138,9 @@ fn run_trace(c: &Case, pseed: u64) -> TraceOut {
     // a pending future borrows the owner: cancel it (the client would have to, before moving the owner)
     w.fut.take();
     let mut racers: Vec<Racer> = vec![];
+    let mut prng = Rng::new(pseed);
     if let Some(o) = w.owner.take() {
-        racers.push(Racer::Ref(Box::new(o)));
+        racers.push(Racer::Own(o, prng.below(N_FINISHERS as u64) as u8, prng.below(100)));
     }
     for h in w.handles.drain(..) {
         racers.push(Racer::Ref(Box::new(h)));
@@ -1020,7 +1151,6 @@ fn run_trace(c: &Case, pseed: u64) -> TraceOut {
     for d in w.dgs.drain(..) {
         racers.push(Racer::Dg(d));
     }
-    let mut prng = Rng::new(pseed);
     for i in 0..NSLOTS {
         if let Some(g) = w.guards[i].take() {
             let m = if prng.chance(1, 2) { Some(prng.below(100)) } else { None };
@@ -1040,6 +1170,14 @@ fn run_trace(c: &Case, pseed: u64) -> TraceOut {
                 barrier.wait();
                 jitter();
                 let res = catch(move || match r {
+                    Racer::Own(o, k, v) => {
+                        if finisher_mutates(k) {
+                            log(format!("mut:{v}"));
+                        }
+                        log("bR".into());
+                        finish_owner(o, k, v);
+                        log("eR".into());
+                    }
                     Racer::Ref(x) => {
                         log("bR".into());
                         drop(x);
@@ -1309,7 +1447,7 @@ fn random_setup(rng: &mut Rng, slots: bool) -> Case {
                 refs += 1;
                 true
             }
-            Op::Dref => {
+            Op::Dref | Op::Fin(..) => {
                 if refs > 1 {
                     refs -= 1;
                     true
@@ -1430,6 +1568,9 @@ fn main() {
             .collect();
         let mut alphabet = family_c06().alphabet;
         alphabet.extend(family_c13().alphabet);
+        for k in 0..N_FINISHERS {
+            alphabet.push(Op::Fin(k as u8, 13));
+        }
         for i in 0..NSLOTS {
             alphabet.extend([Op::Open(i, true, 7), Op::Open(i, false, 7), Op::Gd(i), Op::Gm(i, 11), Op::Delay(i)]);
         }
